@@ -73,22 +73,22 @@ pub const ALL_PROPS: &[&str] = &[
 pub fn plans(prop: &str) -> Vec<Plan> {
     let p = |engine, family, quick, thorough, max_ops| Plan { engine, family, quick, thorough, max_ops };
     match prop {
-        "C01" | "C02" | "C03" | "C08" => vec![p("A", "lossy", 12_000, 1_500_000, 400)],
-        "C09" => vec![p("A", "lossy", 10_000, 1_000_000, 600), p("A", "budget", 3_000, 300_000, 400)],
-        "C13" => vec![p("A", "lossy", 10_000, 1_000_000, 500), p("B", "session", 3_000, 300_000, 250)],
-        "C16" => vec![p("A", "lossy", 8_000, 800_000, 400), p("A", "hostile", 4_000, 400_000, 300), p("B", "hostile", 3_000, 300_000, 250)],
+        "C01" | "C02" | "C03" | "C08" => vec![p("A", "lossy", 36_000, 1_500_000, 400)],
+        "C09" => vec![p("A", "lossy", 30_000, 1_000_000, 600), p("A", "budget", 9_000, 300_000, 400)],
+        "C13" => vec![p("A", "lossy", 30_000, 1_000_000, 500), p("B", "session", 9_000, 300_000, 250)],
+        "C16" => vec![p("A", "lossy", 24_000, 800_000, 400), p("A", "hostile", 12_000, 400_000, 300), p("B", "hostile", 9_000, 300_000, 250)],
         "C20" => vec![p("C", "fullstack", 40_000, 1_000_000, 400)],
-        "C04" => vec![p("B", "session", 12_000, 1_500_000, 300)],
-        "C05" => vec![p("B", "handshake", 12_000, 1_500_000, 250)],
-        "C07" => vec![p("B", "hostile", 12_000, 1_500_000, 250)],
-        "C10" => vec![p("B", "handshake", 8_000, 800_000, 300), p("B", "session", 4_000, 400_000, 300)],
-        "C17" => vec![p("B", "handshake", 6_000, 600_000, 250), p("B", "tamper", 300, 12_000, 120)],
-        "C18" => vec![p("B", "liveness", 8_000, 1_000_000, 300), p("B", "handshake", 4_000, 400_000, 250)],
-        "C19" => vec![p("B", "hostile", 6_000, 600_000, 250), p("B", "handshake", 6_000, 600_000, 250)],
-        "C14" | "C15" => vec![p("A", "budget", 10_000, 1_000_000, 400), p("A", "lossy", 4_000, 400_000, 400)],
-        "C06" => vec![p("A", "hostile", 20_000, 2_000_000, 300)],
-        "C11" => vec![p("A", "multi", 10_000, 1_000_000, 500), p("A", "budget", 5_000, 300_000, 400)],
-        "C12" => vec![p("A", "api", 15_000, 2_000_000, 300)],
+        "C04" => vec![p("B", "session", 36_000, 1_500_000, 300)],
+        "C05" => vec![p("B", "handshake", 36_000, 1_500_000, 250)],
+        "C07" => vec![p("B", "hostile", 36_000, 1_500_000, 250)],
+        "C10" => vec![p("B", "handshake", 24_000, 800_000, 300), p("B", "session", 12_000, 400_000, 300)],
+        "C17" => vec![p("B", "handshake", 18_000, 600_000, 250), p("B", "tamper", 600, 12_000, 120)],
+        "C18" => vec![p("B", "liveness", 24_000, 1_000_000, 300), p("B", "handshake", 12_000, 400_000, 250)],
+        "C19" => vec![p("B", "hostile", 18_000, 600_000, 250), p("B", "handshake", 18_000, 600_000, 250)],
+        "C14" | "C15" => vec![p("A", "budget", 30_000, 1_000_000, 400), p("A", "lossy", 12_000, 400_000, 400)],
+        "C06" => vec![p("A", "hostile", 60_000, 2_000_000, 300)],
+        "C11" => vec![p("A", "multi", 30_000, 1_000_000, 500), p("A", "budget", 15_000, 300_000, 400)],
+        "C12" => vec![p("A", "api", 45_000, 2_000_000, 300)],
         _ => vec![],
     }
 }
@@ -99,7 +99,7 @@ pub fn bias_cfg(prop: &str, cfg: &mut Cfg, rng: &mut Rng) {
         if prop == "C10" && cfg.family == "handshake" && rng.chance(1, 2) {
             // capacity races: many identities, a small table, limit moved at run time, a clean network
             cfg.set("nslots", 6);
-            cfg.set("nids", 6);
+            cfg.set("nids", *rng.pick(&[2u64, 3, 6, 6]));
             cfg.set("maxcl", rng.range(1, 3));
             cfg.set("loss", 0);
             cfg.set("adv", *rng.pick(&[0u64, 0, 1]));
